@@ -157,6 +157,42 @@ func run(c *core.Ctx) error {
 		c.Logf("%s: %d copies", name, o.Copies)
 		outs = append(outs, o)
 	}
+	// Engine S: TLC-generated schedules with COpen / CFile / CClose steps placed by
+	// the model between batches, persist, merge and purge steps
+	for _, safe := range []bool{false, true} {
+		scheds, err := sx.SimulatedSchedules(c, c.Pick(5, 50), c.Pick(60, 80), c.Seed*5+11, safe)
+		if err != nil {
+			return err
+		}
+		ncopies := 0
+		for i, sch := range scheds {
+			base := c.TempDir("c14s")
+			name := fmt.Sprintf("tlc-schedule-%d(safe=%v)", i, safe)
+			r, sched, err := sx.RunSchedule(filepath.Join(base, "idx"), sch, c.Seed, nil)
+			if err != nil {
+				return err
+			}
+			if sched.CopyErr != nil {
+				c.Violation("c14/copy-failed", fmt.Sprintf("%s: CopyTo failed: %v", name, sched.CopyErr), map[string]any{"scenario": name, "schedule": sch})
+			}
+			r.Quiesce(20 * time.Second)
+			if cont, err := sx.ObserveContent(r.Idx); err == nil {
+				r.Rec.Emit("SourceAfter", map[string]any{"docs": cont.Docs, "seq": cont.Seq, "count": cont.Count})
+			}
+			if err := r.Close(); err != nil {
+				return err
+			}
+			os.RemoveAll(base)
+			recs := sx.CrashRecords(r.Rec.Events())
+			for _, x := range recs {
+				if x.(map[string]any)["ev"] == "Recovered" {
+					ncopies++
+				}
+			}
+			outs = append(outs, &outcome{Name: name, Records: recs})
+		}
+		c.Logf("%d TLC-generated schedules executed (safe=%v): %d copies", len(scheds), safe, ncopies)
+	}
 	// the schedule TLC finds when copyScheduled is ignored (a copy holding a root
 	// epoch the persister never persists, its file segments merged away and the
 	// older bolt epochs purged while the copy is parked between two files)
